@@ -144,4 +144,23 @@ impl<'a> Src<'a> {
     pub fn bytes(&mut self, n: usize) -> Vec<u8> {
         (0..n).map(|_| self.byte()).collect()
     }
+
+    /// Draws a 64-bit seed and expands it to `n` choice bytes for a sub-generator
+    /// that must not starve when the main sequence runs out late (seed 0 -> all
+    /// zero bytes, i.e. the simplest choices).
+    pub fn fork_bytes(&mut self, n: usize) -> Vec<u8> {
+        let mut s = self.u64();
+        if s == 0 {
+            return vec![0; n];
+        }
+        let mut out = Vec::with_capacity(n);
+        while out.len() < n {
+            s ^= s << 13;
+            s ^= s >> 7;
+            s ^= s << 17;
+            out.extend_from_slice(&s.to_le_bytes());
+        }
+        out.truncate(n);
+        out
+    }
 }
